@@ -253,9 +253,11 @@ def run(ctx):
                         key = CK(k)
                         CK.count, CK.fail_at, CK.probes, CK.target = 0, n, None, None
                         CK.exc = BoomT if (kind in ("BTree", "TreeSet") and op in ("get", "range", "minkey") and n % 2 == 0) else Boom
-                        if op == "discard" and impl == "Py" and n % 2 == 1:
-                            # (the C discard() cannot tell a KeyError raised by a comparison from "key not found": by design)
+                        if op in ("discard", "get", "pop") and n % 3 == 1:
+                            # a KeyError SUBCLASS raised by a comparison (a POSKeyError while the other key is loaded) is
+                            # not "key not found": both implementations let it through
                             CK.exc = BoomK
+                        CK_exc_was = CK.exc
                         outcome = None
                         try:
                             do(t, key)
@@ -269,7 +271,7 @@ def run(ctx):
                         ctx.count((fn, kind, impl, tuple(keys_in), tuple(keys_del), op, k, n))
                         bad = None
                         if outcome != "boom":
-                            bad = "exception-not-propagated:" + outcome
+                            bad = "exception-not-propagated%s:" % ("-keyerror-subclass" if CK_exc_was is BoomK else "") + outcome
                         else:
                             try:
                                 now = contents(t, setlike)
@@ -333,6 +335,45 @@ def run(ctx):
                 if out != "boom" or [k.n for k in A] != a_keys or [k.n for k in B] != b_keys:
                     ctx.oracle_failure("%s:%s:failing-comparison" % (impl, fname), "%s %s(%r, %r) comparison #%d failing: %s, operands now %r %r" % (fn, fname, a_keys, b_keys, n, out, [k.n for k in A], [k.n for k in B]),
                                        {"family": fn, "impl": impl, "fn": fname, "a": a_keys, "b": b_keys, "n": n})
+                    break
+        # ---- set algebra with a plain iterable (with repeats) as operand: every comparison of the sort, of the
+        #      de-duplication and of the merge fails in turn; afterwards no key object may stay alive
+        import gc
+        for fname in ("union", "intersection", "difference"):
+            if impl != "C":
+                break
+            fn_ = f.func(fname, impl)
+            SetC = f.cls("Set", impl)
+            pattern = [rng.randrange(8) for _ in range(rng.randint(2, 7))]
+            quiet()
+            A = SetC([CK(x) for x in a_keys]); lst = [CK(x) for x in pattern]
+            CK.count = 0
+            fn_(A, lst)
+            total = CK.count
+            A = lst = None
+            gc.collect()
+            live0 = CK.live
+            for n in range(1, total + 1):
+                quiet()
+                A = SetC([CK(x) for x in a_keys]); lst = [CK(x) for x in pattern]
+                CK.count, CK.fail_at = 0, n
+                try:
+                    fn_(A, lst); out = "no-exception"
+                except Boom:
+                    out = "boom"
+                except Exception as e:  # noqa
+                    out = "other:" + type(e).__name__
+                quiet()
+                A = lst = None
+                if CK.live != live0:
+                    gc.collect()
+                ctx.count((fn, impl, fname + "-iterable", tuple(a_keys), tuple(pattern), n))
+                reached[fname + "-iterable"] = reached.get(fname + "-iterable", 0) + 1
+                if out != "boom" or CK.live != live0:
+                    ctx.oracle_failure("%s:%s:iterable-operand:%s" % (impl, fname, "leak" if out == "boom" else "failing-comparison"),
+                                       "%s %s(Set%r, list%r) comparison #%d of %d failing: %s; %d key object(s) still alive after everything was dropped" % (
+                                           fn, fname, a_keys, pattern, n, total, out, CK.live - live0), {"family": fn, "impl": impl, "fn": fname, "a": a_keys, "list": pattern, "n": n})
+                    live0 = CK.live
                     break
         # conflict merge
         if not False:
